@@ -467,3 +467,131 @@ Proof.
   unfold in_i64.
   destruct (Z.leb_spec (- 2 ^ 63) (Ztrunc y)); destruct (Z.ltb_spec (Ztrunc y) (2 ^ 63)); cbn [andb]; eauto; lia.
 Qed.
+
+(* ================================================================================ *)
+(* W = f64: the per-thread budget `pw + (max - pw) / tc` on integer-valued weights.   *)
+(* Its integer part is pw + (max - pw) quot tc as long as tc * (pw + 3 d + 1) < 2^53; *)
+(* at magnitude 2^52 it is not (Proofs/ArcSwapF64.v: f64w_caps_refuted).              *)
+(* ================================================================================ *)
+
+Lemma add_link (x y : bf) : f64_add (B2SF x) (B2SF y) = B2SF (Bplus mode_NE x y).
+Proof.
+  destruct x as [sx|sx| |sx mx ex Bx], y as [sy|sy| |sy my ey By];
+    try reflexivity; try (cbn; destruct (Bool.eqb _ _); reflexivity).
+  cbn. apply binary_normalize_equiv.
+Qed.
+
+Theorem f64w_budget_exact x d tc :
+  (0 <= x)%Z -> (0 <= d)%Z -> (1 <= Z.of_nat tc)%Z -> (Z.of_nat tc * (x + 3 * d + 1) < 2 ^ 53)%Z ->
+  trunc_Z (f64_add (f64_of_Z x) (f64_div (f64_of_Z d) (f64_of_Z (Z.of_nat tc)))) = Some (x + d / Z.of_nat tc)%Z.
+Proof.
+  intros Hx Hd Htc Hsmall.
+  set (t := Z.of_nat tc) in *.
+  assert (Hxb : (Z.abs x <= 2 ^ 53)%Z) by nia.
+  assert (Hdb : (Z.abs d <= 2 ^ 53)%Z) by nia.
+  assert (Htb : (Z.abs t <= 2 ^ 53)%Z) by nia.
+  destruct (BofZ_correct x Hxb) as [Rx Fx].
+  destruct (BofZ_correct d Hdb) as [Rd Fd].
+  destruct (BofZ_correct t Htb) as [Rt Ft].
+  rewrite (BofZ_link x), (BofZ_link d), (BofZ_link t), div_link.
+  assert (Hne : B2R (BofZ t) <> 0) by (rewrite Rt; apply not_0_IZR; lia).
+  pose proof (Bdiv_correct prec emax Hprec Hmax mode_NE (BofZ d) (BofZ t) Hne) as H.
+  rewrite Rd, Rt in H. change (round_mode mode_NE) with ZnearestE in H.
+  set (T := IZR t) in *.
+  assert (HT1 : 1 <= T) by (apply IZR_le; lia).
+  assert (HTi : 0 < / T <= 1).
+  { split; [apply Rinv_0_lt_compat; lra|]. rewrite <- Rinv_1. apply Rinv_le; lra. }
+  assert (Hd0 : 0 <= IZR d) by (apply IZR_le; lia).
+  assert (Hx0 : 0 <= IZR x) by (apply IZR_le; lia).
+  assert (Hq0 : 0 <= IZR d / T) by (unfold Rdiv; nra).
+  assert (Hq64 : Rabs (IZR d / T) <= IZR (2 ^ 64)).
+  { rewrite Rabs_pos_eq by lra. apply Rle_trans with (IZR d); [unfold Rdiv; nra|]. apply IZR_le. lia. }
+  rewrite Rlt_bool_true in H
+    by (apply Rle_lt_trans with (IZR (2 ^ 64)); [apply rnd_abs_le64; exact Hq64|apply pow64_lt_emax]).
+  destruct H as (HRq & HFq & _). rewrite Fd in HFq.
+  set (Q := Bdiv mode_NE (BofZ d) (BofZ t)) in *.
+  set (y := rnd (IZR d / T)) in *.
+  (* the quotient: q <= y <= d/T (1+u) *)
+  set (q := (d / t)%Z). set (r := (d mod t)%Z).
+  assert (Hdiv : d = (t * q + r)%Z) by (unfold q, r; apply Z.div_mod; lia).
+  assert (Hr : (0 <= r < t)%Z) by (unfold r; apply Z.mod_pos_bound; lia).
+  assert (Hqn : (0 <= q)%Z) by (unfold q; apply Z.div_pos; lia).
+  assert (Hqd : (q <= d)%Z) by (unfold q; apply Z.div_le_upper_bound; nia).
+  assert (Hdq : IZR d / T = IZR q + IZR r / T).
+  { rewrite Hdiv, plus_IZR, mult_IZR. fold T. field. lra. }
+  assert (Hr0 : 0 <= IZR r <= T - 1) by (split; [apply IZR_le; lia|unfold T; rewrite <- minus_IZR; apply IZR_le; lia]).
+  assert (Hy : IZR q <= y <= IZR d / T * (1 + u53)).
+  { split.
+    - unfold y. rewrite <- (rnd_id (IZR q)) by (apply int_format; lia). apply rnd_mono.
+      rewrite Hdq. assert (0 <= IZR r / T) by (unfold Rdiv; nra). lra.
+    - apply rnd_rel_up; [exact Hq0|].
+      destruct (Z.eq_dec d 0) as [E0|N0]; [left; rewrite E0; unfold Rdiv; lra|right].
+      apply Rle_trans with (/ IZR (2 ^ 53)); [rewrite pow53, <- bpow_opp; apply bpow_le; lia|].
+      apply Rle_trans with (/ T); [apply Rinv_le; [lra|unfold T; apply IZR_le; lia]|].
+      unfold Rdiv. rewrite <- (Rmult_1_l (/ T)) at 1. apply Rmult_le_compat_r; [lra|apply IZR_le; lia]. }
+  (* the sum *)
+  rewrite add_link.
+  pose proof (Bplus_correct prec emax Hprec Hmax mode_NE (BofZ x) Q Fx HFq) as HS.
+  rewrite Rx, HRq in HS. change (round_mode mode_NE) with ZnearestE in HS. fold y in HS.
+  set (s := IZR x + y) in *.
+  assert (Hu : 0 < u53 <= 1) by (rewrite u53_val; split; [apply Rinv_0_lt_compat; apply IZR_lt; lia|
+                                   rewrite <- Rinv_1; apply Rinv_le; [lra|apply IZR_le; lia]]).
+  assert (Hs0 : 0 <= s) by (unfold s; assert (0 <= IZR q) by (apply IZR_le; lia); lra).
+  assert (Hdle : IZR d / T <= IZR d) by (unfold Rdiv; nra).
+  assert (Hs64 : Rabs s <= IZR (2 ^ 64)).
+  { rewrite Rabs_pos_eq by lra. unfold s.
+    assert (IZR x + 2 * IZR d <= IZR (2 ^ 53)).
+    { rewrite <- (mult_IZR 2), <- plus_IZR. apply IZR_le. nia. }
+    assert (IZR (2 ^ 53) <= IZR (2 ^ 64)) by (apply IZR_le; lia). nra. }
+  rewrite Rlt_bool_true in HS
+    by (apply Rle_lt_trans with (IZR (2 ^ 64)); [apply rnd_abs_le64; exact Hs64|apply pow64_lt_emax]).
+  destruct HS as (HRs & HFs & _).
+  rewrite (trunc_Z_B2SF _ HFs), HRs. f_equal.
+  (* floor (rnd s) = x + q *)
+  assert (Hlo : IZR (x + q) <= rnd s).
+  { rewrite <- (rnd_id (IZR (x + q))) by (apply int_format; nia). apply rnd_mono.
+    unfold s. rewrite plus_IZR. lra. }
+  assert (Hup : rnd s <= s * (1 + u53)).
+  { apply rnd_rel_up; [exact Hs0|].
+    destruct (Req_dec s 0) as [E0|N0]; [now left|right].
+    (* s is 0 or at least 2^-53 / t ... it is at least min(1, d/T) > 2^-1022 *)
+    destruct (Z.eq_dec x 0) as [Ex|Nx].
+    - (* s = y, a rounded value: itself in format and non-zero *)
+      assert (Es : s = y) by (unfold s; rewrite Ex; lra).
+      rewrite Es. destruct (Z.eq_dec d 0) as [Ed|Nd].
+      + exfalso. apply N0. rewrite Es. unfold y. rewrite Ed. unfold Rdiv. rewrite Rmult_0_l. apply rnd_0.
+      + apply Rle_trans with (rnd (/ IZR (2 ^ 53))).
+        * rewrite pow53, <- bpow_opp, rnd_id by (apply generic_format_bpow; cbn; lia). apply bpow_le. lia.
+        * apply rnd_mono. apply Rle_trans with (/ T); [apply Rinv_le; [lra|unfold T; apply IZR_le; lia]|].
+          unfold Rdiv. rewrite <- (Rmult_1_l (/ T)) at 1. apply Rmult_le_compat_r; [lra|apply IZR_le; lia].
+    - apply Rle_trans with 1; [change 1 with (bpow radix2 0); apply bpow_le; lia|].
+      unfold s. assert (1 <= IZR x) by (apply IZR_le; lia). assert (0 <= IZR q) by (apply IZR_le; lia). lra. }
+  assert (Hlt : rnd s < IZR (x + q + 1)).
+  { apply Rle_lt_trans with (s * (1 + u53)); [exact Hup|].
+    rewrite !plus_IZR.
+    (* s <= x + q + (T-1)/T + u d/T ; s (1+u) < x + q + 1  <=  u (d/T + s) < 1/T *)
+    assert (Hs_le : s <= IZR x + IZR q + (T - 1) / T + u53 * (IZR d / T)).
+    { unfold s. destruct Hy as [_ Hy]. rewrite Hdq in Hy at 1.
+      assert (IZR r / T <= (T - 1) / T) by (unfold Rdiv; apply Rmult_le_compat_r; lra). nra. }
+    assert (Hone : (T - 1) / T = 1 - / T) by (field; lra).
+    assert (Hs_le2 : s <= IZR x + 2 * IZR d + 1).
+    { assert (IZR q <= IZR d) by (apply IZR_le; lia).
+      assert (u53 * (IZR d / T) <= IZR d).
+      { apply Rle_trans with (1 * (IZR d / T)); [apply Rmult_le_compat_r; lra|lra]. }
+      assert ((T - 1) / T <= 1) by (rewrite Hone; lra).
+      lra. }
+    assert (Hkey : u53 * (IZR d + (IZR x + 2 * IZR d + 1)) < / T).
+    { rewrite u53_val.
+      replace (IZR d + (IZR x + 2 * IZR d + 1)) with (IZR (x + 3 * d + 1)) by (rewrite !plus_IZR, mult_IZR; lra).
+      set (Nn := IZR (x + 3 * d + 1)). set (P := IZR (2 ^ 53)).
+      assert (Hp : 0 < P) by (apply IZR_lt; lia).
+      assert (HTN : T * Nn < P) by (unfold T, Nn, P; rewrite <- mult_IZR; apply IZR_lt; exact Hsmall).
+      assert (HN0 : 0 <= Nn) by (apply IZR_le; lia).
+      apply Rmult_lt_reg_r with (T * P); [nra|].
+      replace (/ P * Nn * (T * P)) with (T * Nn) by (field; lra).
+      replace (/ T * (T * P)) with P by (field; lra). exact HTN. }
+    assert (u53 * (IZR d / T) <= u53 * IZR d) by nra.
+    nra. }
+  assert (Hnn : 0 <= rnd s) by (apply Rle_trans with (IZR (x + q)); [apply IZR_le; lia|exact Hlo]).
+  rewrite Ztrunc_floor by exact Hnn. apply Zfloor_imp. split; [exact Hlo|exact Hlt].
+Qed.
